@@ -233,9 +233,13 @@ func c18Values(run *hx.Run) []hx.Value {
 	rng := newRng(run, 18)
 	n := 40
 	if run.Thorough() {
-		n = 2000
+		n = 6000
 	}
-	return hx.ExtendGrid(vals, rng, n)
+	vals = hx.ExtendGrid(vals, rng, n)
+	if run.Thorough() {
+		vals = hx.ExtendGrid(vals, rng, n/2) // second generation: neighbours of neighbours
+	}
+	return vals
 }
 
 func C18(run *hx.Run) {
@@ -317,7 +321,7 @@ func C18(run *hx.Run) {
 	rng := newRng(run, 181)
 	trials := 20000
 	if run.Thorough() {
-		trials = 600000
+		trials = 6000000
 	}
 	for t := 0; t < trials; t++ {
 		w := rng.Intn(5)
@@ -392,7 +396,9 @@ func C18(run *hx.Run) {
 	defer cleanup()
 	profiles := []hx.M{{"page_size": 512, "rows": 150}, {"page_size": 4096, "rows": 300}}
 	if run.Thorough() {
-		profiles = append(profiles, hx.M{"page_size": 1024, "rows": 3000, "frag": true}, hx.M{"page_size": 65536, "rows": 500}, hx.M{"page_size": 512, "rows": 4000, "features": []string{"plain", "big", "wr"}})
+		profiles = append(profiles, hx.M{"page_size": 1024, "rows": 3000, "frag": true}, hx.M{"page_size": 65536, "rows": 500}, hx.M{"page_size": 512, "rows": 4000, "features": []string{"plain", "big", "wr"}},
+			hx.M{"page_size": 2048, "rows": 1200, "auto_vacuum": 1}, hx.M{"page_size": 8192, "rows": 2000, "frag": true}, hx.M{"page_size": 16384, "rows": 800}, hx.M{"page_size": 32768, "rows": 600},
+			hx.M{"page_size": 512, "rows": 20, "features": []string{"big"}, "big_extra": []int{3_000_000}})
 	}
 	for i, pr := range profiles {
 		d, err := hx.BuildDB(o, dir, fmt.Sprintf("life%d", i), pr, run.Seed*19+int64(i))
